@@ -43,14 +43,10 @@ def native_probe():
     return bad, n
 
 
-def run(chk):
-    mod = harness_module('h_cli')
-    fns = find(mod, 'MSSMNoFV_setup::run(')
-    if not fns:
-        chk.record('run:diagnostic', 'gap', 'MSSMNoFV_setup::run not found')
-        chk.not_covered.append('diagnostic on failure exit of MSSMNoFV_setup::run (function not found)')
-        return
-    chk.functions.add('MSSMNoFV_setup::run (gm2calc.cpp)')
+def explore_run(mod, fns):
+    """MSSMNoFV_setup::run with reader/writer/model/streams stubbed; options are symbolic fields of the setup object.
+    returns (executor, paths, have_problem, have_warning, option fields)"""
+    from .C15 import options_region
     hp, hw = z3.Bool('have_problem'), z3.Bool('have_warning')
     stubs_ = dict(S.STRING_MODEL_STUBS)
 
@@ -70,6 +66,12 @@ def run(chk):
             st.event(name)
             return args[0] if ret0 and args else None
         return f
+
+    def setter(name):
+        def f(ex, st, args, I):
+            st.event('setter', name=name, value=args[1])
+            return None
+        return f
     for frag in ('MSSMNoFV_onshell_mass_eigenstates::~', 'MSSMNoFV_onshell::~', 'MSSMNoFV_onshell::MSSMNoFV_onshell('):
         for n in find(mod, frag):
             stubs_[n] = lambda ex, st, args, I: None
@@ -79,6 +81,10 @@ def run(chk):
         stubs_[n] = flag(hw)
     for n in find(mod, 'MSSMNoFV_onshell_mass_eigenstates::get_problems()'):
         stubs_[n] = ret_this('get_problems')
+    for n in find(mod, 'MSSMNoFV_onshell_mass_eigenstates::do_force_output(bool)'):
+        stubs_[n] = setter('do_force_output')
+    for n in find(mod, 'MSSMNoFV_onshell::set_verbose_output(bool)'):
+        stubs_[n] = setter('set_verbose_output')
     for n, d in demangled(mod).items():
         if 'operator<<' in d and 'MSSMNoFV_onshell_problems const&' in d:
             stubs_[n] = ev('problems-streamed')
@@ -90,15 +96,31 @@ def run(chk):
             stubs_[n] = ev('callback', ret0=False)
     ex = executor(mod, RealDom(), extra_stubs=stubs_, fork_select=False)
     ex.opaque_calls = True
-    # library calls (model constructor/destructor, setters, VERBOSE formatting): no influence on status and diagnostics
+    # library calls (VERBOSE formatting etc.): no influence on status and diagnostics
     ex.undefined_handler = lambda ex_, s_, name, args, I: (None if isinstance(ex_.m.resolve(I['ty']), llir.VoidT)
                                                           else ex_.fresh_of(s_, ex_.m.resolve(I['ty']), 'lib'))
     st = X.State()
-    this = ex.new_region(st, None, 'input', 'setup', lazy=True)
+    # the setup object starts with its Config_options member
+    optr, fields = options_region(ex, st, mod)
+    this = ex.region(st, optr)
+    this.size = None
+    this.lazy = True
     io = ex.new_region(st, None, 'input', 'slha_io', lazy=True)
-    st = ex.start(fns[0], [Ptr(this.rid, 0), Ptr(io.rid, 0)], st)
+    st = ex.start(fns[0], [optr, Ptr(io.rid, 0)], st)
+    paths = ex.explore(st)
+    return ex, paths, hp, hw, fields
+
+
+def run(chk):
+    mod = harness_module('h_cli')
+    fns = find(mod, 'MSSMNoFV_setup::run(')
+    if not fns:
+        chk.record('run:diagnostic', 'gap', 'MSSMNoFV_setup::run not found')
+        chk.not_covered.append('diagnostic on failure exit of MSSMNoFV_setup::run (function not found)')
+        return
+    chk.functions.add('MSSMNoFV_setup::run (gm2calc.cpp)')
     try:
-        paths = ex.explore(st)
+        ex, paths, hp, hw, fields = explore_run(mod, fns)
     except Unsupported as e:
         chk.record('run:diagnostic', 'gap', 'executor: %s' % e)
         chk.not_covered.append('diagnostic on failure exit of MSSMNoFV_setup::run (%s)' % str(e)[:80])
